@@ -109,7 +109,7 @@ CHECKS = {
         "Hypothesis-generated gene/transcript/exon structures rendered as shuffled GTF files; extents and hierarchy from a reference computation",
         "Derived transcript/gene features must exist exactly for ids owning an exon (unless disabled or explicitly present), span min start..max end of "
         "the exons on their seqid/strand, and children/parents at levels 1 and 2 must equal the id-carrying lines; explicit gene/transcript lines stay "
-        "single and are never their own relative; all four disable_infer_* combinations and custom keys/subfeature; in a share of cases the last gene, or one transcript's exons, arrive through update() with the same flags, optionally after an update with a constructor-built Feature and a reopen.",
+        "single and are never their own relative; all four disable_infer_* combinations and custom keys/subfeature; in a share of cases the last gene, or one transcript's exons, arrive through update() with the same flags, optionally after an update with a constructor-built Feature and a reopen, or after a first import with inference off; genes may have exons without a transcript key, non-exon lines may be unstranded, merge_strategy is drawn.",
         "Every line carries gene and transcript keys; one seqid/strand per gene; children(gene, 2) may include stored transcripts.",
         "DESIGN.md section 4 C03",
     ),
@@ -123,7 +123,7 @@ CHECKS = {
     ),
     "C13": (
         "Hypothesis differential testing across the seven input forms + call-counting transforms + Counter oracle for inspect()",
-        "The same generated annotation is supplied as path, gzip path, string, list of Features, one-shot generator, list iterator, map object, custom __next__ iterator, DataIterator and FeatureDB for "
+        "The same generated annotation is supplied as path, gzip path, string, list / deque / dict values of Features, one-shot generator, list iterator, map object, custom __next__ iterator, DataIterator and FeatureDB (verbose on or off) for "
         "every checklines in 0..n+2; iteration sequences and database snapshots must be equal (and equal to the text model for the path form); a "
         "counting transform must be called exactly n times and exactly the rows for which it returned a false value are missing; inspect() must "
         "equal Counters over the first `limit` features and leave the rest of a one-shot source untouched; transforms that return a modified copy must be honoured.",
